@@ -169,6 +169,21 @@ def _stored_pair(a3, a4, f: Func, flow: Flow) -> Optional[str]:
     p3, p4 = arr_at(a3), arr_at(a4)
     if p3 and p4 and p3[0] == "starts" and p4[0] == "ends" and p3[1] == p4[1]:
         return f"(self.starts[{p3[1]}], self.ends[{p4[1]}])"
+    # (ks, ke) unpacked from one element of a local list of kept (start, end) pairs: `for ks, ke in kept` where `kept` starts empty,
+    # only ever receives `kept.append((<start>, <end>))`, and is projected into self.starts / self.ends ([p[0] for p in kept] ...);
+    # the projection and the append are checked by the keep-iff-no-match clause
+    if isinstance(a3, ast.Name) and isinstance(a4, ast.Name):
+        d3, d4 = list(flow.defs_of(a3)), list(flow.defs_of(a4))
+        if len(d3) == 1 and len(d4) == 1 and d3[0].kind == "for" and d4[0].kind == "for" and d3[0].node is d4[0].node \
+                and d3[0].index == (0,) and d4[0].index == (1,) and isinstance(d3[0].value, ast.Name):
+            K = d3[0].value.id
+            apps = [n for n in ast.walk(f.node) if isinstance(n, ast.Call) and src(n.func) == f"{K}.append"]
+            inits = [n for n in ast.walk(f.node) if isinstance(n, ast.Assign) and len(n.targets) == 1 and src(n.targets[0]) == K]
+            other = [n for n in ast.walk(f.node) if isinstance(n, ast.Call) and isinstance(n.func, ast.Attribute)
+                     and src(n.func.value) == K and n.func.attr not in ("append",)]
+            if apps and inits and not other and all(isinstance(n.value, ast.List) and not n.value.elts for n in inits) \
+                    and all(len(n.args) == 1 and isinstance(n.args[0], ast.Tuple) and len(n.args[0].elts) == 2 for n in apps):
+                return f"(start, end) of one pair of the local list `{K}`"
     return None
 
 
@@ -317,8 +332,18 @@ def _keep_iff_no_match(loop, inner, call, args, f: Func) -> Tuple[bool, str]:
         return None, "the eq_relation call is not inside a scan loop nested in the loop over the new spans"
     # inner loop ranges over all spans kept so far
     rng = src(inner.iter)
+    kept_local = None
     if not ("len(self.starts)" in rng or "self.starts" in rng):
-        return False, f"the scan `{rng}` does not range over the spans kept so far"
+        names = {n.id for n in ast.walk(inner.iter) if isinstance(n, ast.Name)} - {"range", "len", "enumerate", "zip"}
+        outer = {n.id for n in ast.walk(loop.target) if isinstance(n, ast.Name)}
+        if names & (set(f.params[1:]) | outer):
+            # positively wrong: the scan walks the *input* (a prefix of it), not what was kept of it
+            return False, f"the scan `{rng}` does not range over the spans kept so far"
+        # the kept spans may be collected in a local list of pairs that is split into starts / ends after the loop
+        if isinstance(inner.iter, ast.Name):
+            kept_local = inner.iter.id
+        else:
+            return None, f"cannot tell what the scan `{rng}` ranges over"
     if isinstance(inner.iter, ast.Call) and src(inner.iter.func) == "range" and len(inner.iter.args) != 1:
         return False, f"the scan `{rng}` skips some of the kept spans"
     # canonical form (normalisation N12 turns the keep-flag idiom into it): the match breaks out of the scan, the appends are the
@@ -337,6 +362,33 @@ def _keep_iff_no_match(loop, inner, call, args, f: Func) -> Tuple[bool, str]:
         return False, "scan loop is not a direct statement of the span loop"
     if not inner.orelse:
         return False, "the kept span is not appended in the no-match (else) clause of the scan"
+
+    if kept_local is not None:
+        # form B: K = []; for (s, e) ...: for ks, ke in K: if rel(s, e, ks, ke): break  else: K.append((s, e));
+        #         self.starts = [p[0] for p in K]; self.ends = [p[1] for p in K]
+        inits = [n for n in ast.walk(f.node) if isinstance(n, ast.Assign) and len(n.targets) == 1 and isinstance(n.targets[0], ast.Name)
+                 and n.targets[0].id == kept_local]
+        if not inits or not all(isinstance(n.value, ast.List) and not n.value.elts for n in inits):
+            return None, f"`{kept_local}` is not a local list that starts empty"
+        tgt = inner.target
+        if not (isinstance(tgt, ast.Tuple) and len(tgt.elts) == 2 and [src(x) for x in tgt.elts] == [src(args[2]), src(args[3])]):
+            return None, f"the scan over `{kept_local}` does not unpack (start, end) into the stored-span arguments of the relation"
+        ok_app = [st for st in inner.orelse if isinstance(st, ast.Expr) and isinstance(st.value, ast.Call)
+                  and src(st.value.func) == f"{kept_local}.append" and len(st.value.args) == 1 and isinstance(st.value.args[0], ast.Tuple)
+                  and [src(x) for x in st.value.args[0].elts] in ([src(args[0]), src(args[1])], [src(call.args[0]), src(call.args[1])])]
+        if len(ok_app) != 1 or len(inner.orelse) != 1:
+            return False, f"the no-match clause does not append exactly the probed pair to `{kept_local}`"
+        proj = {}
+        for n in ast.walk(f.node):
+            if isinstance(n, ast.Assign) and len(n.targets) == 1 and isinstance(n.value, ast.ListComp) and len(n.value.generators) == 1 \
+                    and not n.value.generators[0].ifs and src(n.value.generators[0].iter) == kept_local \
+                    and isinstance(n.value.elt, ast.Subscript) and src(n.value.elt.value) == src(n.value.generators[0].target):
+                d = dotted(n.targets[0])
+                if d and len(d) == 2:
+                    proj.setdefault(d[1], set()).add(src(n.value.elt.slice))
+        if proj.get("starts") == {"0"} and proj.get("ends") == {"1"}:
+            return True, ""
+        return None, f"how `{kept_local}` becomes self.starts / self.ends was not recognised ({proj})"
 
     class _K:
         body = inner.orelse
